@@ -30,7 +30,7 @@ EXTENDS Integers, Sequences, FiniteSets, TLC, Json
 CONSTANTS Progs,   \* set of programs explored
           Dev
 
-AllDev == {"ParallelEdgeLastWins", "SourceKeyedByNode", "MultiSourceReplacesLastVar", "DefaultAddedToSum"}
+AllDev == {"ParallelEdgeLastWins", "SourceKeyedByNode", "MultiSourceReplacesLastVar", "DefaultAddedToSum", "RefResolvesToFirstOfGroup"}
 
 VARIABLES prog, pc, fieldP
 vars == <<prog, pc, fieldP>>
@@ -59,9 +59,14 @@ Gain(e) == IF "g" \in DOMAIN e THEN e.g * e.w                \* coupling edge wi
 EdgesInto(n, tv) == {q \in 1..Len(Edges) : Edges[q].t = n /\ Edges[q].tv = tv}
 HasContribution(n, tv) == EdgesInto(n, tv) # {} \/ (tv = "u" /\ HasProd(Nodes[n].kind))
 IsDiff(e) == "df" \in DOMAIN e /\ e.df       \* coupling edge evaluated per (target, source) pair: w * (pre - post)
+(* an edge whose template has a second input bound to a variable path: it delivers w * (source - x of node e.ref) *)
+HasRef(e) == "ref" \in DOMAIN e /\ e.ref > 0
+FirstOfKindW(n) == CHOOSE m \in 1..NN : Nodes[m].kind = Nodes[n].kind /\ \A m2 \in 1..NN : Nodes[m2].kind = Nodes[n].kind => m <= m2
+RefP(e) == IF "RefResolvesToFirstOfGroup" \in Dev THEN FirstOfKindW(e.ref) ELSE e.ref
 InputCoefM(n, tv, j) ==       \* coefficient of state variable j in input tv of node n
   SumSeq([q \in 1..Len(Edges) |-> IF q \in EdgesInto(n, tv) /\ Idx(Edges[q].s, Edges[q].sv) = j THEN Gain(Edges[q]) ELSE 0])
   - SumSeq([q \in 1..Len(Edges) |-> IF q \in EdgesInto(n, tv) /\ IsDiff(Edges[q]) /\ j = Idx(n, "x") THEN Gain(Edges[q]) ELSE 0])
+  - SumSeq([q \in 1..Len(Edges) |-> IF q \in EdgesInto(n, tv) /\ HasRef(Edges[q]) /\ j = Idx(Edges[q].ref, "x") THEN Gain(Edges[q]) ELSE 0])
   + (IF tv = "u" /\ HasProd(Nodes[n].kind) /\ j = Idx(n, "z") THEN 3 ELSE 0)
 InputConstM(n, tv) == IF HasContribution(n, tv) THEN 0 ELSE (IF tv = "u" THEN Nodes[n].du ELSE Nodes[n].dv)
 RowM(i) ==
@@ -99,7 +104,9 @@ InEdgeCoefP(n, tv, j) ==
 (* operator-level sources of an input: the in_edge operator (if any edge) and the same-node prod operator *)
 NSources(n, tv) == (IF EdgesInto(n, tv) # {} THEN 1 ELSE 0) + (IF tv = "u" /\ HasProd(Nodes[n].kind) THEN 1 ELSE 0)
 InputCoefP(n, tv, j) == InEdgeCoefP(n, tv, j)
-  - SumSeq([q \in 1..Len(Edges) |-> IF q \in EdgesInto(n, tv) /\ IsDiff(Edges[q]) /\ j = Idx(n, "x") THEN Gain(Edges[q]) ELSE 0]) + (IF tv = "u" /\ HasProd(Nodes[n].kind) /\ j = Idx(n, "z") THEN 3 ELSE 0)
+  - SumSeq([q \in 1..Len(Edges) |-> IF q \in EdgesInto(n, tv) /\ IsDiff(Edges[q]) /\ j = Idx(n, "x") THEN Gain(Edges[q]) ELSE 0])
+  - SumSeq([q \in 1..Len(Edges) |-> IF q \in EdgesInto(n, tv) /\ HasRef(Edges[q]) /\ j = Idx(RefP(Edges[q]), "x") THEN Gain(Edges[q]) ELSE 0])
+  + (IF tv = "u" /\ HasProd(Nodes[n].kind) /\ j = Idx(n, "z") THEN 3 ELSE 0)
 InputConstP(n, tv) == IF NSources(n, tv) > 0 /\ "DefaultAddedToSum" \notin Dev THEN 0
                       ELSE (IF tv = "u" THEN Nodes[n].du ELSE Nodes[n].dv)
 RowP(i) ==
@@ -133,11 +140,18 @@ NonTrivial == \E n \in 1..NN, tv \in {"u", "v"} : Cardinality(EdgesInto(n, tv)) 
 MergedDefaultMismatch ==
   \E n1, n2 \in 1..NN, tv \in {"u", "v"} : n1 # n2 /\ Nodes[n1].kind = Nodes[n2].kind
                                            /\ EdgesInto(n1, tv) # {} /\ EdgesInto(n2, tv) = {}
+UsesTemplate(e) == e.tm \/ HasRef(e)
 ParallelTemplateEdges ==
-  \E p, q \in 1..Len(Edges) : p < q /\ Edges[p].tm /\ Edges[q].tm /\ Edges[p].s = Edges[q].s /\ Edges[p].sv = Edges[q].sv
+  \E p, q \in 1..Len(Edges) : p < q /\ UsesTemplate(Edges[p]) /\ UsesTemplate(Edges[q]) /\ Edges[p].s = Edges[q].s /\ Edges[p].sv = Edges[q].sv
                                /\ Edges[p].t = Edges[q].t /\ Edges[p].tv = Edges[q].tv
+(* D61 - with vectorisation, two templated edges of one vectorised edge group (same source kind, same target kind and input)
+         whose reference variables belong to different vectorised nodes: the group binds the reference input once *)
+RefGroupMismatch ==
+  \E p, q \in 1..Len(Edges) : p < q /\ HasRef(Edges[p]) /\ HasRef(Edges[q]) /\ Edges[p].tv = Edges[q].tv
+                               /\ Nodes[Edges[p].s].kind = Nodes[Edges[q].s].kind /\ Nodes[Edges[p].t].kind = Nodes[Edges[q].t].kind
+                               /\ Nodes[Edges[p].ref].kind # Nodes[Edges[q].ref].kind
 Export == pc = "compiled" =>
             PrintT(<<"PROG", ToJson([prog |-> prog, sv |-> SV, field |-> DenoteM, nontrivial |-> NonTrivial,
                                             pop |-> IF "pop" \in DOMAIN prog THEN prog.pop ELSE <<>>,
-                                            d42 |-> MergedDefaultMismatch, d43 |-> ParallelTemplateEdges])>>)
+                                            d42 |-> MergedDefaultMismatch, d43 |-> ParallelTemplateEdges, d61 |-> RefGroupMismatch])>>)
 =============================================================================
